@@ -85,6 +85,9 @@ func GenPeerScenario(rng *rand.Rand, id int) *PeerScenario {
 		sc.Prompt = []string{"; LA1AAA DE LA2BBB (JP20)>", "LA2BBB BBS>", "Hello LA1AAA, latest msg 123 >"}[rng.Intn(3)]
 		if rng.Intn(2) == 0 {
 			sc.Motd = []string{"Welcome to LA2BBB", "*** MTD Stats Total connects = 2580 Total messages = 3900", "Type H for help"}[:1+rng.Intn(3)]
+			if rng.Intn(2) == 0 {
+				sc.Motd = append([]string{"", sc.Motd[0], ""}, sc.Motd[1:]...) // blank lines in the text
+			}
 		}
 	}
 	if rng.Intn(3) == 0 {
@@ -203,6 +206,10 @@ func RunPeerScenario(ps *PeerScenario) ([]rec.Event, Result) {
 	}
 	if sec := ps.Secure; sec != nil && sec.Callback == "nil" {
 		sess.SetSecureLoginHandleFunc(nil) // explicitly un-registered: the same as never registered
+	} else if sec != nil && sec.Callback == "setnil" {
+		// registered, then un-registered again
+		sess.SetSecureLoginHandleFunc(func(addr fbb.Address) (string, error) { return sec.Password, nil })
+		sess.SetSecureLoginHandleFunc(nil)
 	} else if sec != nil && sec.Callback != "none" {
 		sess.SetSecureLoginHandleFunc(func(addr fbb.Address) (string, error) {
 			if sec.Callback == "error" {
@@ -420,6 +427,14 @@ func MainC16(args []string) int {
 	}
 	// the repository's published vector
 	mk("23753528", "FOOBAR", nil, nil, "ok")
+	// responses with leading zeros (the value before padding has fewer than eight digits), the prompt character in the challenge,
+	// a callback that was registered and removed again
+	mk("10000003", "PASS", nil, nil, "ok")
+	for c := 0; c < 400; c++ {
+		mk(fmt.Sprintf("%08d", 20000000+c), "PASS", nil, nil, "ok")
+	}
+	mk("2375352>", "FOOBAR", nil, nil, "ok")
+	mk("23753528", "FOOBAR", nil, nil, "setnil")
 	auxCalls := []string{"LA9AUX", "ops@example.org", "LA8TAC-1", "N0CALL"}
 	for i := 0; i < *n; i++ {
 		var challenge string
@@ -432,7 +447,8 @@ func MainC16(args []string) int {
 			challenge = fmt.Sprintf("%040d", rng.Int63())
 		case 3:
 			// challenges that begin with characters of the ";PQ: " prefix itself
-			challenge = []string{"QX482913", "PQ123456", ":1234567", ";;PQ: 12", "Q", "PPPPPPPP", "P:Q;1234"}[rng.Intn(7)]
+			// ... or end in the character that ends a prompt
+			challenge = []string{"QX482913", "PQ123456", ":1234567", ";;PQ: 12", "Q", "PPPPPPPP", "P:Q;1234", "2375352>", "12345678>", ">"}[rng.Intn(10)]
 		default:
 			challenge = fmt.Sprintf("%08d", rng.Intn(100000000))
 		}
@@ -464,6 +480,8 @@ func MainC16(args []string) int {
 			cb = "error"
 		case 2:
 			cb = "nil"
+		case 3:
+			cb = "setnil"
 		}
 		mk(challenge, pw, aux, auxpw, cb)
 	}
